@@ -26,14 +26,14 @@ def ops_all():
     return ops
 
 
-STARTS = [(), ('b0',), ('b0', 'b1'), ('b0', 'k2'), ('k2', 'b0', 'b1'), ('b0', 'b0x')]
+STARTS = [(), ('b0',), ('b0', 'b1'), ('b0', 'k2'), ('k2', 'b0', 'b1'), ('blank', 'b0', 'k2'), ('b0', 'blank', 'k2', 'b1'), ('b0', 'b0x')]
 
 
 def plan(tier, seed):
     ops = ops_all()
     depth = 2 if tier == 'quick' else 3
     units = []
-    starts = STARTS if tier != 'quick' else STARTS[:5]
+    starts = STARTS if tier != 'quick' else STARTS[:7]
     for st in starts:
         for owner in (False, True):
             seqs = [s for d in range(1, 3) for s in itertools.product(ops, repeat=d)]
